@@ -64,6 +64,18 @@ CHECKS = {
              '(sound by construction, detection probabilistic: >= 64 runs per witness in quick, 400 in thorough).',
         note='Go map order and goroutine schedules cannot be forced; sites outside the catalogue (DESIGN A.7) are not '
              'exercised; one known finding (multi-file attribution of a shared broken local action) is listed in known_findings.json'),
+    'C10': dict(
+        category='model_checking', design_ref='5 (C10), 3.4 Linter, A.9',
+        technique='TLA+ spec Linter.tla (project resolution, callee registration, cache read/miss/write of the file workers) '
+                  'model-checked by TLC for every argument order and interleaving, with two counterexample guards; the '
+                  'argument sequences are materialised as real sibling repositories and run through LintFiles vs LintFile; '
+                  'outcomes validated by TLC (EmissionTrace.tla); -race stress run; fingerprint of the built-in tables',
+        text='The model proves attribution and per-file isolation for all orders/interleavings provided containment is '
+             'segment-wise and the two interface derivations agree (both assumptions have a TLC counterexample when '
+             'dropped); the real code is compared file by file against single-file runs for every argument sequence '
+             'and GOMAXPROCS 1,2,16, and checked with the race detector and table fingerprints.',
+        note='race detector and free goroutine schedules observe only executed interleavings; 5-file layout with 2 '
+             'sibling repositories; callees well-formed'),
 }
 
 REASON_NOT_YET = 'check not built yet in this revision of /verif (planned, see DESIGN.md section 5); not claimed'
